@@ -1,6 +1,7 @@
 """C04 — cached results with external values are replayed only while still valid.
 Model: lean/RedunModel/Model/FileSys.lean (file classes, symbolic hashes) + Model/ExtCache.lean (cache entry,
 the validity branch of Scheduler._get_cache, re-execution)."""
+import dataclasses
 import json
 import logging
 
@@ -45,7 +46,9 @@ ASSUMPTIONS = [
     "file paths; file paths and directory paths are disjoint",
     "external leaves are the 9 file classes and Staging values; Handle leaves are not generated here (handle validity "
     "is C25's subject)",
-    "workflows make() and consume(make()), run repeatedly with unchanged code and arguments against one in-memory backend; "
+    "workflows make(), consume(make()) and outer() whose result is the call expression inner(x=<container of the values>) "
+    "(modelled like consume(make()): the cached expression is valid iff every nested argument leaf is, the inner job is "
+    "keyed by the recorded leaf hashes), run repeatedly with unchanged code and arguments against one in-memory backend; "
     "default (full) and shallow check_valid on make; thread executor; execution clock strictly increasing; no Staging "
     "leaves in consume(make()) workflows (a Staging value pickles the hashes of its two inner Files, which the model's "
     "consumer key does not carry)",
@@ -58,7 +61,8 @@ ASSUMPTIONS = [
     "shallow_rerun_remark)",
 ]
 RULE = ("histories (4-10 steps) of run / delete / truncate / rewrite (size or mtime or neither changed) / touch / add "
-        "directory member over a task returning 1-4 leaves (9 file classes, Staging, plain) nested in list/tuple/dict; "
+        "directory member over a task returning 1-4 leaves (9 file classes, Staging, plain) nested in list/tuple/dict/dataclass "
+        "(returned directly, passed to a consumer task, or carried as the argument of a returned call expression); "
         "after every step the execution count, escaped exception, recorded hash pre-images of the returned leaves and the "
         "whole file tree are compared with the model, and the property oracle is applied to the real scheduler. distinct = "
         "distinct history texts; non-trivial = at least two runs with an external mutation between them")
@@ -86,7 +90,15 @@ U = [("f",), ("g",)]
 for _d in TOPS:
     U += [_d + (x,) for x in "abc"] + [_d + ("s", x) for x in "ac"]
 DATA = [b"", b"a", b"b", b"ab", b"ba", b"abc", b"hello world"]
-SHAPES = ["single", "list", "tuple", "dict", "nested"]
+SHAPES = ["single", "list", "tuple", "dict", "nested", "dataclass"]
+
+
+@dataclasses.dataclass
+class Box:
+    """a user dataclass as container of returned values / of a call expression's argument"""
+    first: object
+    rest: tuple
+    note: int = 7
 
 _S = {"count": 0, "ccount": 0, "world": None, "tasks": None}
 
@@ -101,6 +113,8 @@ def build(shape, vals):
         return tuple(vals)
     if shape == "dict":
         return {"k%d" % i: v for i, v in enumerate(vals)}
+    if shape == "dataclass":
+        return Box(vals[0], tuple(vals[1:]))
     return [vals[0], {"a": tuple(vals[1:]), "b": 7}]
 
 
@@ -111,6 +125,8 @@ def flatten(shape, n, res):
         return list(res)
     if shape == "dict":
         return [res["k%d" % i] for i in range(n)]
+    if shape == "dataclass":
+        return [res.first] + list(res.rest)
     return [res[0]] + list(res[1]["a"])
 
 
@@ -159,7 +175,17 @@ def tasks():
             _S["ccount"] += 1
             w = _S["world"]
             return [observe(w, o) for o in flatten(shape, n, x)]
+        def inner(case_id: str, shape: str, n: int, x=None):
+            _S["ccount"] += 1
+            w = _S["world"]
+            return [observe(w, o) for o in flatten(shape, n, x)]
+        inner_t = task(namespace="verif_gj_c04", name="inner")(inner)
+
+        def outer(case_id: str, writes: tuple, outs: tuple, shape: str):
+            # the RESULT of this task is a call expression whose keyword argument carries the values, nested in `shape`
+            return inner_t(case_id, shape, len(outs), x=body(case_id, writes, outs, shape))
         _S["tasks"] = {
+            "outer": task(namespace="verif_gj_c04", name="outer")(outer),
             "full": task(namespace="verif_gj_c04", name="make")(make),
             "shallow": task(namespace="verif_gj_c04", name="make_shallow", check_valid="shallow")(make_shallow),
             "consume": task(namespace="verif_gj_c04", name="consume")(consume),
@@ -205,9 +231,11 @@ def gen_case(rng, nsteps):
         if p not in seen:
             seen.add(p)
             ws.append((p, d))
-    chain = rng.random() < 0.35 and not any(o[0] == "staging" for o in outs)
+    chain = False
+    if not any(o[0] == "staging" for o in outs):
+        chain = rng.choice([False, False, False, True, True, "expr", "expr", "expr"])
     spec = dict(writes=tuple(ws), outs=tuple(outs), shape=rng.choice(SHAPES),
-                variant=rng.choice(["full", "full", "shallow"]), chain=chain)
+                variant="full" if chain == "expr" else rng.choice(["full", "full", "shallow"]), chain=chain)
     touched = [p for p, _ in ws] or U
     interesting = touched + [p for o in outs if o[0] in ("dir", "fset") for p in below(o[2])]
     clock = [2000]
@@ -290,6 +318,18 @@ CORPUS = [
     (S([(("f",), b"ab"), (("g",), b"abc")], [("staging", False, "content", ("f",), ("g",)), ("file", "content", ("f",))], "tuple"),
      [("run", 2000), ("xwrite", ("f",), b"ba", 2000), ("run", 2001), ("xremove", ("g",)), ("xwrite", ("g",), b"q", 2001), ("run", 2002),
       ("xtrunc", ("f",), 2002), ("run", 2003), ("run", 2004)]),
+    # the task's RESULT is a call expression; the external values sit inside a container argument of that expression
+    (S([(("f",), b"abc")], [("plain", 1), ("file", "plain", ("f",))], "list", "full", "expr"),
+     [("run", 2000), ("run", 2001), ("xtrunc", ("f",), 2001), ("run", 2002), ("run", 2003), ("xremove", ("f",)), ("run", 2004), ("run", 2005)]),
+    (S([(("d1", "a"), b"a")], [("dir", "plain", ("d1",)), ("file", "content", ("d1", "a"))], "dict", "full", "expr"),
+     [("run", 2000), ("xwrite", ("d1", "b"), b"b", 2000), ("run", 2001), ("run", 2002), ("xwrite", ("d1", "a"), b"zz", 2002), ("run", 2003),
+      ("xremove", ("d1", "b")), ("run", 2004), ("run", 2005)]),
+    (S([(("g",), b"ab")], [("file", "content", ("g",)), ("plain", 2)], "dataclass", "full", "expr"),
+     [("run", 2000), ("xwrite", ("g",), b"abcd", 2000), ("run", 2001), ("xremove", ("g",)), ("xwrite", ("g",), b"q", 2001), ("run", 2002), ("run", 2003)]),
+    (S([(("d2", "a"), b"ab")], [("plain", 0), ("dir", "content", ("d2",)), ("file", "plain", ("d2", "a"))], "nested", "full", "expr"),
+     [("run", 2000), ("run", 2001), ("xtouch", ("d2", "a"), 2500), ("run", 2002), ("xwrite", ("d2", "c"), b"", 2002), ("run", 2003), ("run", 2004)]),
+    (S([(("f",), b"abc")], [("file", "plain", ("f",)), ("file", "imm", ("g",))], "tuple", "full", "expr"),
+     [("run", 2000), ("xwrite", ("f",), b"cba", 2000), ("run", 2001), ("xwrite", ("f",), b"cba", 2001), ("run", 2002), ("run", 2003)]),
     # one invalid leaf deep in a container is enough
     (S([(("f",), b"a"), (("g",), b"b")], [("file", "imm", ("f",)), ("plain", 3), ("file", "plain", ("g",))], "nested", "shallow"),
      [("run", 2000), ("run", 2001), ("xtrunc", ("g",), 2001), ("run", 2002), ("run", 2003)]),
@@ -388,8 +428,11 @@ def run_case(ctx, w, sched, case_id, spec, steps, replies, label):
             w.clock = st[1]
             before, cbefore = _S["count"], _S["ccount"]
             try:
-                expr = t(case_id, spec["writes"], spec["outs"], spec["shape"])
-                if spec.get("chain"):
+                if spec.get("chain") == "expr":
+                    expr = tk["outer"](case_id, spec["writes"], spec["outs"], spec["shape"])
+                else:
+                    expr = t(case_id, spec["writes"], spec["outs"], spec["shape"])
+                if spec.get("chain") is True:
                     expr = tk["consume"](case_id, expr, spec["shape"], n)
                 res = sched.run(expr)
                 err = None
@@ -499,7 +542,7 @@ def run_cases(ctx, cases):
                 ctx.case(key="\n".join(lines[a:b]) if nontrivial else None,
                          sample={"label": label, "steps": [model_line(spec, s) for s in steps][:10]},
                          shape=spec["shape"], variant=spec["variant"], n_leaves=len(spec["outs"]),
-                         workflow="consume(make())" if spec.get("chain") else "make()")
+                         workflow={False: "make()", True: "consume(make())", "expr": "outer() returning inner(x=...)"}[spec.get("chain", False)])
                 for kd in kinds:
                     ctx.count("step", kd)
                 for o in spec["outs"]:
